@@ -422,7 +422,7 @@ def isNumberVal : Val → Bool | .num _ => true | _ => false
 
 def run (cfg : Cfg) (limit : Nat) (input : List Byte) : Code × Val × Nat :=
   let s0 : St := { l := { unread := input } }
-  match parseVariant cfg (input.length + 3) limit s0 with
+  match parseVariant cfg (2 * input.length + 4) limit s0 with
   | (.ok, v, s) =>
     if s.l.cur != 0 && isNumberVal v then (.invalid, v, s.l.pos) else (.ok, v, s.l.pos)
   | (e, v, s) => (e, v, s.l.pos)
@@ -685,7 +685,7 @@ end
 
 def frun (cfg : Cfg) (limit : Nat) (flt : Flt) (input : List Byte) : Code × Val × Nat :=
   let s0 : St := { l := { unread := input } }
-  match fparseVariant cfg (input.length + 3) limit flt s0 with
+  match fparseVariant cfg (2 * input.length + 4) limit flt s0 with
   | (.ok, v, s) =>
     if s.l.cur != 0 && isNumberVal v then (.invalid, v, s.l.pos) else (.ok, v, s.l.pos)
   | (e, v, s) => (e, v, s.l.pos)
